@@ -25,6 +25,16 @@ FLOWS = os.path.join(ROOT, "harness_hydro", "hv_prog_flows", "src", "gen")
 HAND = [("h_pipeline", "ok"), ("h_tick_fold", "ok"), ("h_tick_cycle", "ok"), ("h_tee_state_and_tick", "ok"),
         ("h_forward_ref", "ok"), ("h_network_cycle", "ok"), ("h_singleton_ref", "ok"), ("h_keyed_fold", "ok"),
         ("h_cluster_roundtrip", "ok"), ("n_forward_ref_sync_cycle", "reject")]
+# hand-written programs that live on process p1 only (the harness can instantiate and run them)
+HAND_RUNNABLE = {"h_pipeline", "h_tick_fold", "h_tick_cycle", "h_tee_state_and_tick", "h_forward_ref",
+                 "h_singleton_ref", "h_keyed_fold"}
+NET_OPS = {"send12", "send21", "bcast", "gather"}
+
+
+def runnable(term):
+    """Single-location programs (no network hop): the emitted function needs only the two input
+    streams and the output callback, so the harness can instantiate it and run a few ticks."""
+    return not ({s["op"] for s in term} & NET_OPS)
 
 LOC = {"p1": "L1<'a>", "p2": "L2<'a>", "c1": "LC<'a>", "t1": "Tick<L1<'a>>", "t2": "Tick<L2<'a>>"}
 ELEM = {"i": "i32", "kv": "KV"}
@@ -257,11 +267,12 @@ def write_all(quick_terms, thorough_terms, out_dir=FLOWS):
                 named[nm] = t
                 nt.append(nm)
     body = HEADER + "\n".join(render(nm, named[nm]) for nm in sorted(named))
-    ql = "// GENERATED by tools/gen_hydro_progs.py -- do not edit.  (module, function, expected: ok | reject)\nhv_programs! { q;\n"
-    ql += "".join("    (hand, %s, %s);\n" % h for h in HAND)
-    ql += "".join("    (progs, %s, ok);\n" % nm for nm in nq) + "}\n"
+    ql = ("// GENERATED by tools/gen_hydro_progs.py -- do not edit.\n"
+          "// (module, function, expected: ok | reject, run: the harness instantiates and runs it | norun)\nhv_programs! { q;\n")
+    ql += "".join("    (hand, %s, %s, %s);\n" % (h[0], h[1], "run" if h[0] in HAND_RUNNABLE else "norun") for h in HAND)
+    ql += "".join("    (progs, %s, ok, %s);\n" % (nm, "run" if runnable(named[nm]) else "norun") for nm in nq) + "}\n"
     tl = "// GENERATED by tools/gen_hydro_progs.py -- do not edit.\nhv_programs! { t;\n"
-    tl += "".join("    (progs, %s, ok);\n" % nm for nm in nt) + "}\n"
+    tl += "".join("    (progs, %s, ok, %s);\n" % (nm, "run" if runnable(named[nm]) else "norun") for nm in nt) + "}\n"
     terms = json.dumps({"quick": nq, "thorough": nt, "terms": {nm: named[nm] for nm in sorted(named)}},
                        sort_keys=True, separators=(",", ":"))
     changed = False
